@@ -179,6 +179,19 @@ func (c *Conn) setSession(session Session) {
 }
 
 func (c *Conn) Close() error {
+	// A panic of the backend's Logout is contained like a panic of any other
+	// callback: Close runs inside panic handlers and under Server.Close,
+	// where a panic would kill the process or leave the server's mutex
+	// locked. It is reported once the connection's mutex has been released.
+	var logoutPanic interface{}
+	var stack []byte
+	var remote net.Addr
+	defer func() {
+		if logoutPanic != nil {
+			c.server.ErrorLog.Printf("panic serving %v: %v\n%s", remote, logoutPanic, stack)
+		}
+	}()
+
 	c.locker.Lock()
 	defer c.locker.Unlock()
 
@@ -190,9 +203,20 @@ func (c *Conn) Close() error {
 		c.bdatStart = nil
 	}
 
-	if c.session != nil {
-		c.session.Logout()
+	if session := c.session; session != nil {
+		// Forget the session first: it is logged out once, whatever
+		// Logout does.
 		c.session = nil
+		func() {
+			defer func() {
+				if err := recover(); err != nil {
+					logoutPanic = err
+					stack = debug.Stack()
+					remote = c.conn.RemoteAddr()
+				}
+			}()
+			session.Logout()
+		}()
 	}
 
 	return c.conn.Close()
